@@ -171,7 +171,10 @@ class DOO(Algorithm):
                         return node.get_cpoint()
             h += 1
             if h > self.partition.get_depth():
-                self.partition.make_children(max_node, newlayer=True)
+                self.partition.make_children(
+                    max_node,
+                    newlayer=(max_node.get_depth() >= self.partition.get_depth()),
+                )
                 h = 0
 
     def receive_reward(self, time, reward):
